@@ -3314,7 +3314,7 @@ pub fn s_family(cx: &mut Ctx) {
 /// Anything that assumes "children have smaller indices" (a one-pass mark, a bottom-up sweep for
 /// counting or exporting) goes wrong exactly here.
 pub fn s_young_low(cx: &mut Ctx) {
-    let cases = if cx.thorough { 600 } else { 30 };
+    let cases = if cx.thorough { 20000 } else { 30 };
     for ci in 0..cases {
         let n = 6u32;
         let bb = cx.rng.below(4);
